@@ -34,7 +34,7 @@ def program(rng, names, n, canon=True):
 def store_cases(n, rng, prefix, wf=True, canon=True):
     cases = []
     for i in range(n):
-        init, names = gen_edit.init_doc(rng, wf)
+        init, names = gen_edit.init_doc(rng, wf, parsed_paras=False)
         cases.append((f"{prefix}{i}", [init, str(NREGS), program(rng, names, rng.choice([1, 2, 3, 5, 8, 12, 16]), canon)]))
     return cases
 
